@@ -299,6 +299,15 @@ class Normalizer:
             # verdict helpers: `fn check(..) -> Option<HtlcAcceptedResponse>` (a rejection or nothing)
             if re.match(r"^std::option::Option<messages::HtlcAcceptedResponse>$", cb.ret_ty or ""):
                 return False
+            # verdict constructors: a helper that returns the classification result type, called from the classification
+            # function itself (`HtlcCheckResult::passthrough(req)` = `Response(default_response(req))`)
+            try:
+                import names as _nm
+                chk = _nm.of(F).check
+            except Exception:   # noqa
+                chk = {}
+            if (cb.ret_ty or "") in chk and (hb.ret_ty or "") == (cb.ret_ty or ""):
+                return False
             # phases of the extractor: `fn parse_invoice(..) -> Result<Bolt11Invoice>` called with `?` from the function that
             # classifies the metadata (-> Result<Option<TrampolineInfo>>) or from another such phase: the gates they contain
             # (hash, signature, amount table) guard what the extractor builds, exactly as when written inline
